@@ -558,6 +558,7 @@ func (g *gen) do(line string) {
 	}
 	if r.hung {
 		g.dead = true
+		g.stat["hangs"]++
 	}
 }
 
@@ -1307,6 +1308,12 @@ func runHist(o *Out, rng *rand.Rand, thorough bool, replay string, profile strin
 		o.Case(strings.Join(lines, "\n"), nontrivial)
 		if i%60 == 0 {
 			o.Sample(strings.Join(lines, " ; "))
+		}
+		if o.Stats["hangs"] >= 3 {
+			// every hung item leaves a goroutine spinning or blocked behind it: three are evidence enough, the rest
+			// of the stream would only be slower
+			o.Stats["stream-cut-short-after-hangs"] = 1
+			break
 		}
 	}
 }
